@@ -114,6 +114,7 @@ fn main() {
             }
             let mut p = hist::Profile::base("C13");
             p.vacuum = true;
+            p.own_row_updates = atom.as_deref() != Some("noupdates");
             p.reopen = atom.as_deref() == Some("reopen");
             hist::run_profile(&p, seed, shard, if tier == "thorough" { 4000 } else { 300 });
         }
